@@ -425,7 +425,7 @@ func (w *World) observe(st *Step, pre map[*half]halfSnap) {
 			w.viol("C04", "do-never-returns", "after shutdown every stream has ended but Broker.Do has not returned"+hist())
 		}
 		if allFinished {
-			if lk := brokerGoroutines(w.lastGS, true); 0 != len(lk) {
+			if lk := w.brokerGoroutines(w.lastGS, true); 0 != len(lk) {
 				w.viol("C04", "leak/"+leakSig(lk), fmt.Sprintf(
 					"every connection has returned and every stream is closed, yet %d goroutine(s) of the broker keep running: %s%s",
 					len(lk), leakDesc(lk), hist()))
